@@ -27,6 +27,7 @@ func init() {
 	gens["Src_basicauth.v"] = genGoLoopBasicAuth
 	gens["Src_staticdir.v"] = genGoLoopStaticDir
 	gens["Src_group.v"] = genGoLoopGroup
+	gens["Src_reverse.v"] = genGoLoopReverse
 }
 
 // innerHandler finds the innermost function literal of shape func(c echo.Context) error inside fd.
@@ -163,6 +164,10 @@ func (g *goliteCfg) expr(e ast.Expr) (string, error) {
 		}
 		if id, ok := v.X.(*ast.Ident); ok && g.objs[id.Name] != nil {
 			return "EField " + g.str(n), nil
+		}
+		if id, ok := v.X.(*ast.Ident); ok && g.loop && g.locals[id.Name] && g.pure["."+v.Sel.Name] {
+			// a field of a local value (the range variable `route`): a pure projection
+			return fmt.Sprintf("EPred %s [EVar %s]", g.str("."+v.Sel.Name), g.str(id.Name)), nil
 		}
 		return "ESym " + g.str(n), nil
 	case *ast.CompositeLit:
@@ -700,7 +705,54 @@ func (g *goliteCfg) stmt(s ast.Stmt) ([]string, error) {
 				}
 				return []string{fmt.Sprintf("SForTo %s (%s)\n    %s", g.str(iv), hi, body)}, nil
 			}
-			return nil, fmt.Errorf("for loop is not of the form `for i := 0; i < E; i++`")
+			// any other for [init]; cond; [post] { body } whose condition bounds a counter from above (`i < E` or `i < E && ...`): the
+			// counter may be moved by the body too.  SWhile with fuel E + 1 (read on entry); running out of fuel is a result no
+			// function returns, so a loop that does not advance cannot satisfy a theorem.
+			var out []string
+			if v.Init != nil {
+				xs, err := g.stmt(v.Init)
+				if err != nil {
+					return nil, err
+				}
+				out = append(out, xs...)
+			}
+			if v.Cond == nil {
+				return nil, fmt.Errorf("for loop without a condition is not understood")
+			}
+			bound := v.Cond
+			for {
+				be, ok := bound.(*ast.BinaryExpr)
+				if ok && be.Op == token.LAND {
+					bound = be.X
+					continue
+				}
+				break
+			}
+			be, ok := bound.(*ast.BinaryExpr)
+			if !ok || be.Op != token.LSS {
+				return nil, fmt.Errorf("for loop: the condition %s does not start with `i < E`", lit(v.Cond))
+			}
+			hi, err := g.expr(be.Y)
+			if err != nil {
+				return nil, err
+			}
+			c, err := g.expr(v.Cond)
+			if err != nil {
+				return nil, err
+			}
+			postS := "[]"
+			if v.Post != nil {
+				xs, err := g.stmt(v.Post)
+				if err != nil {
+					return nil, err
+				}
+				postS = "[" + strings.Join(xs, "; ") + "]"
+			}
+			body, err := g.block(v.Body.List)
+			if err != nil {
+				return nil, err
+			}
+			return append(out, fmt.Sprintf("SWhile (EAdd (%s) (%s)) (%s)\n    %s\n    %s", hi, g.z("1"), c, body, postS)), nil
 		}
 		// only: for i := 0; i < len(X); i++ { X[i] = "" }   (blanking a slice)
 		if len(v.Body.List) == 1 {
@@ -1111,4 +1163,22 @@ func genGoLoopGroup(repo string) (string, error) {
 		out += s
 	}
 	return out, nil
+}
+
+func genGoLoopReverse(repo string) (string, error) {
+	f, err := parseFile(repo, "router.go")
+	if err != nil {
+		return "", err
+	}
+	fd := findFunc(f, "*Router", "Reverse")
+	if fd == nil {
+		return "", fmt.Errorf("Router.Reverse not found")
+	}
+	s, err := goliteFunc(fd, "reverse", goliteCfg{loop: true, ignore: map[string]bool{}, cells: map[string]bool{},
+		pure:   map[string]bool{"len": true, "fmt.Sprintf": true, ".Name": true, ".Path": true},
+		extern: map[string]bool{}})
+	if err != nil {
+		return "", err
+	}
+	return goloopHeader + "(* router.go: Router.Reverse.  r.routes is a list cell of (Name, Path) values; len, indexing, the projections and fmt.Sprintf are\n   pure; the writes to the buffer (uri.WriteString, uri.WriteByte) are events, and what is returned is the buffer's content. *)\n" + s, nil
 }
